@@ -6,7 +6,7 @@ import re
 
 from .common import unhx
 
-PAT = re.compile(r"^= (.*?) \| tx (\S+) \| ev (\S+) \| st (\S+) neg (\d) sec (\d) q (-?\d+)(?: sm (\S+)(?: s(\d+) h(\d+) q(\S+))?)?(?: sid \S+)?$")
+PAT = re.compile(r"^= (.*?) \| tx (\S+) \| ev (\S+) \| st (\S+) neg (\d) sec (\d) q (-?\d+)(?: sm (\S+)(?: s(\d+) h(\d+) q(\S+))?)?(?: sid \S+)?(?: ql -?\d+)?$")
 
 F_DISABLE_TLS, F_MANDATORY_TLS, F_LEGACY_SSL, F_TRUST_TLS, F_LEGACY_AUTH, F_DISABLE_SM, F_COMPRESS, F_COMP_DR = \
     1, 2, 4, 8, 16, 32, 64, 128
@@ -18,6 +18,9 @@ STRONGER = {"DIGEST-MD5", "SCRAM-SHA-1", "SCRAM-SHA-256", "SCRAM-SHA-512", "SCRA
 def parse_line(out):
     m = PAT.match(out)
     if not m:
+        if out.startswith("= ") and " | st " in out and " | tx " in out:
+            # never skip silently what should have been understood (a status-line field was added?)
+            raise ValueError("conn_mon: status line not understood: %r" % out[:300])
         return None
     res, tx, ev, st, neg, sec, q, smf, s, h, smq = m.groups()
     return {"res": res, "tx": [] if tx == "-" else tx.split(","), "ev": [] if ev == "-" else ev.split(","),
